@@ -30,7 +30,7 @@ FEATS = dict(div=False, ts=False, strftime=False, nulls_order="explicit", setops
              self_join=False,         # same-named columns of two sources collide in aggregation
              stars="single-source",
              derived_order_nolimit=False, outer_derived=False, subq_under_or=False, cross_join_derived=False,
-             lit_left_cmp=False, star_dup_order=False, same_col_const_pair=False, group_derived_expr=False)
+             lit_left_cmp=False, star_dup_order=False, same_col_const_pair=False, group_derived_expr=False, tvl=True)
 
 T = sqlgen.Table
 _T1 = T("t1", [("a1", sqlgen.INT), ("b1", sqlgen.INT), ("s1", sqlgen.TEXT)])
